@@ -85,6 +85,8 @@ func (e *Engine) registerIntrinsics() {
 			}
 			c.ret(Str{S: fmt.Sprint(t.SVal())})
 		},
+		"internal/stringslite.Clone": func(c *icall) { c.ret(c.args[0]) },
+		"strings.Clone":              func(c *icall) { c.ret(c.args[0]) },
 		"internal/bytealg.IndexByteString": func(c *icall) {
 			s := c.args[0].(Str)
 			b := c.args[1].(*Term)
@@ -543,11 +545,7 @@ func vExpectPanic(c *icall) {
 func vObserve(c *icall) {
 	name := c.strArg(0)
 	s := name + "=" + c.e.render(c.st, c.args[1])
-	c.e.res.mu.Lock()
-	if len(c.e.res.Observations) < 10000 {
-		c.e.res.Observations = append(c.e.res.Observations, s)
-	}
-	c.e.res.mu.Unlock()
+	c.st.obs = &obsNode{s: s, prev: c.st.obs}
 	c.ret(nil)
 }
 
